@@ -16,7 +16,7 @@ import Okane.Model.Syntax
 * `fakeFS` — `FakeFileSystem` (lexical `canonicalize_path`, whole-string glob over the keys);
   `prodFS` — `ProdFileSystem` over a directory tree given as data (no symbolic links; `std::fs::canonicalize`
   is then lexical resolution of a path every prefix of which exists; the `glob` crate's directory walk).
-* glob matching — `Pattern::matches_from` for `Char`, `?`, `*` with `MatchOptions`
+* glob matching — `Pattern::new` / `Pattern::matches_from` for `Char`, `?`, `*`, `[..]`, `[!..]` with `MatchOptions`
   (`require_literal_separator`, `require_literal_leading_dot`, `case_sensitive`); `[..]` and `**` are outside the
   modelled fragment (`tokenize` answers `unsupported`) and are answered from a harness-supplied table `ext`.
 -/
@@ -119,35 +119,91 @@ structure GlobOpts where
   literalLeadingDot : Bool := true
   deriving Repr, DecidableEq, Inhabited
 
-/-- `PatternToken` (modelled fragment). -/
+/-- `CharSpecifier` -/
+inductive CharSpec where
+  | single (c : Char)
+  | range (a b : Char)
+  deriving Repr, DecidableEq, Inhabited
+
+/-- `PatternToken` (modelled fragment: everything but `**`). -/
 inductive Tok where
   | lit (c : Char)
   | any        -- `?`
   | star       -- `*`
+  | within (negated : Bool) (cs : List CharSpec)   -- `[..]` (`AnyWithin`) / `[!..]` (`AnyExcept`)
   deriving Repr, DecidableEq, Inhabited
 
 inductive TokRes where
   | ok (ts : List Tok)
-  | invalid                 -- `Pattern::new` fails (`***`)
-  | unsupported             -- `**`, `[`: outside the modelled fragment
+  | invalid                 -- `Pattern::new` fails (`***`, an unclosed or empty `[`)
+  | unsupported             -- `**`: outside the modelled fragment
   deriving Repr, DecidableEq, Inhabited
 
-/-- `Pattern::new` on the fragment. -/
-def tokenize : List Char → TokRes
-  | [] => .ok []
-  | '*' :: '*' :: '*' :: _ => .invalid
-  | '*' :: '*' :: _ => .unsupported
-  | '[' :: _ => .unsupported
-  | c :: rest =>
-    match tokenize rest with
+/-- `parse_char_specifiers`: `a-b` (three characters) is a range, anything else a single character. -/
+def parseSpecs : List Char → List CharSpec
+  | a :: '-' :: b :: rest => .range a b :: parseSpecs rest
+  | a :: rest => .single a :: parseSpecs rest
+  | [] => []
+
+/-- position of the first `]` -/
+def closePos : List Char → Option Nat
+  | [] => none
+  | c :: cs => if c = ']' then some 0 else (closePos cs).map (· + 1)
+
+/-- the `'['` arm of `Pattern::new`; `rest` is what follows the `[`.  Returns the token and what remains, or `none` (invalid range
+pattern).  `[!x..]`: the first character after `!` is never the closing bracket; `[x..]`: nor is the first character. -/
+def classTok (rest : List Char) : Option (Tok × List Char) :=
+  match rest with
+  | '!' :: r2 =>
+    if r2.length ≥ 2 then
+      match closePos (r2.drop 1) with
+      | some j => some (.within true (parseSpecs (r2.take (j + 1))), r2.drop (j + 2))
+      | none => none
+    else none
+  | _ =>
+    if rest.length ≥ 2 then
+      match closePos (rest.drop 1) with
+      | some j => some (.within false (parseSpecs (rest.take (j + 1))), rest.drop (j + 2))
+      | none => none
+    else none
+
+/-- `Pattern::new` on the fragment (`fuel` ≥ length of the text: a class consumes several characters at once). -/
+def tokenizeAux : Nat → List Char → TokRes
+  | _, [] => .ok []
+  | 0, _ => .invalid
+  | _, '*' :: '*' :: '*' :: _ => .invalid
+  | _, '*' :: '*' :: _ => .unsupported
+  | fuel + 1, '[' :: rest =>
+    match classTok rest with
+    | none => .invalid
+    | some (t, rem) =>
+      match tokenizeAux fuel rem with
+      | .ok ts => .ok (t :: ts)
+      | r => r
+  | fuel + 1, c :: rest =>
+    match tokenizeAux fuel rest with
     | .ok ts => .ok ((if c = '?' then Tok.any else if c = '*' then Tok.star else Tok.lit c) :: ts)
     | r => r
+
+def tokenize (cs : List Char) : TokRes := tokenizeAux (cs.length + 1) cs
 
 def asciiLower (c : Char) : Char := if 'A' ≤ c ∧ c ≤ 'Z' then Char.ofNat (c.toNat + 32) else c
 
 /-- `chars_eq`. -/
 def charsEq (o : GlobOpts) (a b : Char) : Bool :=
   if o.caseSensitive then a == b else asciiLower a == asciiLower b
+
+def isAsciiAlphaLower (c : Char) : Bool := 'a' ≤ c && c ≤ 'z'
+
+/-- `in_char_specifiers` -/
+def inSpecs (o : GlobOpts) (c : Char) : List CharSpec → Bool
+  | [] => false
+  | .single sc :: rest => charsEq o c sc || inSpecs o c rest
+  | .range a b :: rest =>
+    (!o.caseSensitive && c.toNat < 128 && a.toNat < 128 && b.toNat < 128 &&
+        isAsciiAlphaLower (asciiLower a) && isAsciiAlphaLower (asciiLower b) &&
+        decide (asciiLower a ≤ asciiLower c) && decide (asciiLower c ≤ asciiLower b)) ||
+      (decide (a ≤ c) && decide (c ≤ b)) || inSpecs o c rest
 
 /-- the `while let Some(c) = file.next()` loop of an `AnySequence` token: `k` matches the remaining tokens. -/
 def starLoop (o : GlobOpts) (k : List Char → Bool → Bool) : List Char → Bool → Bool
@@ -165,6 +221,10 @@ def matchToks (o : GlobOpts) : List Tok → List Char → Bool → Bool
   | .any :: ts, x :: xs, sep =>
     !((o.literalSeparator && x == '/') || (sep && o.literalLeadingDot && x == '.')) && matchToks o ts xs (x == '/')
   | .any :: _, [], _ => false
+  | .within neg cs :: ts, x :: xs, sep =>
+    !((o.literalSeparator && x == '/') || (sep && o.literalLeadingDot && x == '.')) && (inSpecs o x cs != neg) &&
+      matchToks o ts xs (x == '/')
+  | .within _ _ :: _, [], _ => false
   | .star :: ts, xs, sep => starLoop o (matchToks o ts) xs sep
 
 /-- `Pattern::matches_with(str, options)`. -/
@@ -413,7 +473,9 @@ def prodGlob (o : GlobOpts) (t : Tree) (pat : String) : Outcome LoadErr (List Pa
       let comps := dropTrailingEmpty ((pat.drop 1).toString.splitOn "/")
       match tokenizeAll comps with
       | some pats => .ok (prodWalk o t pats [.root])
-      | none => .err .globFailure
+      -- `glob_with` compiles the pattern component by component: a class holding a separator (`p[/]x`) falls apart into
+      -- `p[` and `]x`, which `Pattern::new` refuses
+      | none => .err .invalidIncludeGlob
     else t.extGlob pat
 
 def prodFS (o : GlobOpts) (t : Tree) : FSI where
